@@ -403,6 +403,7 @@ func (s *Server) Reset(reason string, timeoutMs int64) (*statejson.ResetDescript
 		resetSuccess, resetFailure := s.sandboxContext.Reset(reset)
 		vhook.At("reset.beforeServerClear")
 		s.Clear() // clear server state to prepare for new invokes
+		vhook.At("reset.serverCleared")
 		s.setRapidPhase(phaseIdle)
 		s.setRuntimeState(runtimeNotStarted)
 
